@@ -128,6 +128,31 @@ def run(ck, w):
         else:
             ck.ok(o, sites=[sn[0].site()])
     common.reuse_exactly_conditioned(ck, w, "C14.2d")
+    # ---- 2e. the unchanged test is not stricter than kind + mtime + size --------------------------------------
+    o = ck.ob("C14.2e", "content_heuristically_unchanged looks at kind, mtime and size only: a metadata-only change (mode, owner) does not "
+                        "make the content look changed")
+    fam = lib.family(common.HEUR)
+    extra = []
+    n_acc = 0
+    for fb in fam:
+        for e in fb.events:
+            if e.bb not in fb.live:
+                continue
+            m = re.search(r"EntryTrait>?::(\w+)$", e.callee or "") or re.search(r"EntryTrait>::(\w+)$", e.name)
+            if m:
+                n_acc += 1
+                if m.group(1) not in ("kind", "mtime", "size", "apath"):
+                    extra.append((e, m.group(1)))
+            elif re.search(r"change::EntryChange::|diff_metadata", e.name):
+                extra.append((e, e.name.split("::")[-1]))
+    if fam and extra:
+        ck.fail(o, common.HEUR, "unchanged test depends on more than kind, mtime and size",
+                "the reuse decision also consults %s: an unchanged file with different metadata would be stored again" % sorted({x[1] for x in extra}), extra[0][0].site())
+    elif not fam or n_acc == 0:
+        ck.fail(o, common.HEUR, "anchor-missing", "no entry accessors found in %s" % common.HEUR)
+    else:
+        ck.ok(o, "%d accessor call(s): kind / mtime / size only" % n_acc, instances=n_acc)
+
     # ---- 4. a source entry meets ITS basis entry ----------------------------------------------------------
     # copy_file can only reuse what the merge pairs: a mis-aligned merge presents unchanged files as new
     common.merge_alignment(ck, w, "C14.4a", "C14.4b")
